@@ -88,6 +88,12 @@ const char *Args::Params(const char *token, size_t &index)
             {
                token_len++;
             }
+            else if (  token[0] == '-'
+                    && token[1] == '-')
+            {
+               // a longer long option ('--files' when looking for '--file'), not a value attached to this one
+               continue;
+            }
             index = idx + 1;
             return(&m_values[idx][token_len]);
          }
